@@ -165,10 +165,12 @@ Definition apply_cb (k : cb) (fr : nat) (n : xnode) : xnode :=
    that is a parsed object without metadata of its own receives the metadata of the node it stands for: that of the
    previous value when that is a parsed object, otherwise (an earlier callback turned the node into a scalar or a
    list) that of the LAST parsed object that stood for the node.  `last` is that metadata. *)
-Definition hand_over (last : option nat) (prev now : xnode) : xnode :=
+(* The metadata goes on a COPY of the replacement (identity fr, made by this stage): the replacement may be an object
+   of the input tree - a child of the node, say - and the input is never written to. *)
+Definition hand_over (fr : nat) (last : option nat) (prev now : xnode) : xnode :=
   if same prev now then now else
   match now with
-  | XObj i c fs None => XObj i c fs last
+  | XObj i c fs None => XObj fr c fs last
   | _ => now
   end.
 Definition last_meta (last : option nat) (cur : xnode) : option nat :=
@@ -176,7 +178,7 @@ Definition last_meta (last : option nat) (cur : xnode) : option nat :=
 Definition chain_step (st : xnode * option nat * nat) (k : cb) : xnode * option nat * nat :=
   let '(cur, last, j) := st in
   let last' := last_meta last cur in
-  (hand_over last' cur (apply_cb k (FRESH + j) cur), last', S j).
+  (hand_over (FRESH + j) last' cur (apply_cb k (FRESH + j) cur), last', S j).
 Definition chainf (ks : list cb) (n : xnode) : xnode := fst (fst (fold_left chain_step ks (n, None, 0))).
 
 (* as shipped: metadata was handed over from the previous value only, so a chain that passes through a scalar or a
@@ -185,17 +187,35 @@ Definition shipped_chain_step (st : xnode * nat) (k : cb) : xnode * nat :=
   let '(cur, j) := st in (carry_meta cur (apply_cb k (FRESH + j) cur), S j).
 Definition shipped_chainf (ks : list cb) (n : xnode) : xnode := fst (fold_left shipped_chain_step ks (n, 0)).
 
-(* when the previous value is a parsed object the two rules coincide *)
-Lemma hand_over_is_carry_meta last i c fs m now :
-  hand_over (last_meta last (XObj i c fs m)) (XObj i c fs m) now = carry_meta (XObj i c fs m) now.
-Proof. unfold hand_over, carry_meta, last_meta. destruct (same _ now); auto. Qed.
+(* when the previous value is a parsed object the two rules give the same node up to its identity (the shipped rule
+   wrote into the replacement, the repaired one into a copy of it) *)
+Lemma hand_over_is_carry_meta fr last i c fs m now :
+  shape_of (hand_over fr (last_meta last (XObj i c fs m)) (XObj i c fs m) now) = shape_of (carry_meta (XObj i c fs m) now).
+Proof. unfold hand_over, carry_meta, last_meta. destruct (same _ now); auto. destruct now as [| |j c' fs' [m'|]]; auto. Qed.
+
+(* "the input tree is never modified": whatever the hand-over returns under an identity of the input (below FRESH) is
+   the callback's answer itself, untouched; metadata is only ever attached to a node made by this stage *)
+Lemma hand_over_leaves_input_objects fr last prev now : FRESH <= fr ->
+  xnid (hand_over fr last prev now) < FRESH -> hand_over fr last prev now = now.
+Proof.
+  unfold hand_over. destruct (same prev now); auto.
+  destruct now as [j|j l|j c fs [m|]]; auto. cbn [xnid]. intros H1 H2. exfalso. apply (Nat.lt_irrefl fr). eapply Nat.lt_le_trans; eauto.
+Qed.
+(* the shipped rule did write into an object of the input: a callback that unwraps a node (answers with its child 2,
+   which has no metadata) left child 2 - an input object - with the metadata of its parent *)
+Example shipped_hand_over_writes_into_input :
+  carry_meta (XObj 1 10 [XObj 2 11 [] None] (Some 77)) (apply_cb (CChild 10) FRESH (XObj 1 10 [XObj 2 11 [] None] (Some 77)))
+    = XObj 2 11 [] (Some 77)
+  /\ hand_over FRESH (Some 77) (XObj 1 10 [XObj 2 11 [] None] (Some 77)) (apply_cb (CChild 10) FRESH (XObj 1 10 [XObj 2 11 [] None] (Some 77)))
+    = XObj FRESH 11 [] (Some 77).
+Proof. vm_compute. auto. Qed.
 
 Lemma chainf_id_only ks n : Forall (fun k => k = CId) ks -> chainf ks n = n.
 Proof.
   unfold chainf. generalize 0. generalize (@None nat). revert n.
   induction ks as [|k ks IH]; intros n last j H; [reflexivity|].
   inversion H; subst. cbn [fold_left chain_step].
-  assert (E : hand_over (last_meta last n) n (apply_cb CId (FRESH + j) n) = n).
+  assert (E : hand_over (FRESH + j) (last_meta last n) n (apply_cb CId (FRESH + j) n) = n).
   { destruct n; cbn; unfold hand_over, same; cbn; rewrite Nat.eqb_refl; reflexivity. }
   rewrite E. apply IH. assumption.
 Qed.
@@ -215,14 +235,14 @@ Proof.
   rewrite Hl. clear Hl.
   assert (Hsame : forall n, xnid n = xnid cur -> same cur n = true) by (intros n E; unfold same; rewrite E; apply Nat.eqb_refl).
   assert (Hnew : forall n, xnid n = FRESH + j -> same cur n = false) by (intros n E; unfold same; rewrite E; apply Nat.eqb_neq; lia).
-  assert (Keep : stands_for m (hand_over m cur cur) m /\ xnid (hand_over m cur cur) < FRESH + S j).
+  assert (Keep : stands_for m (hand_over (FRESH + j) m cur cur) m /\ xnid (hand_over (FRESH + j) m cur cur) < FRESH + S j).
   { unfold hand_over. rewrite (Hsame cur eq_refl). split; [|lia]. destruct cur; cbn in *; auto. }
-  assert (Leaf : stands_for m (hand_over m cur (XLeaf (FRESH + j))) m /\ xnid (hand_over m cur (XLeaf (FRESH + j))) < FRESH + S j).
+  assert (Leaf : stands_for m (hand_over (FRESH + j) m cur (XLeaf (FRESH + j))) m /\ xnid (hand_over (FRESH + j) m cur (XLeaf (FRESH + j))) < FRESH + S j).
   { unfold hand_over. rewrite (Hnew (XLeaf (FRESH + j)) eq_refl). cbn. split; [auto|lia]. }
-  assert (Lst : forall l, stands_for m (hand_over m cur (XLst (FRESH + j) l)) m /\ xnid (hand_over m cur (XLst (FRESH + j) l)) < FRESH + S j).
+  assert (Lst : forall l, stands_for m (hand_over (FRESH + j) m cur (XLst (FRESH + j) l)) m /\ xnid (hand_over (FRESH + j) m cur (XLst (FRESH + j) l)) < FRESH + S j).
   { intros l. unfold hand_over. rewrite (Hnew (XLst (FRESH + j) l) eq_refl). cbn. split; [auto|lia]. }
   assert (Obj : forall c' fs' mm, (mm = None \/ mm = m) ->
-            stands_for m (hand_over m cur (XObj (FRESH + j) c' fs' mm)) m /\ xnid (hand_over m cur (XObj (FRESH + j) c' fs' mm)) < FRESH + S j).
+            stands_for m (hand_over (FRESH + j) m cur (XObj (FRESH + j) c' fs' mm)) m /\ xnid (hand_over (FRESH + j) m cur (XObj (FRESH + j) c' fs' mm)) < FRESH + S j).
   { intros c' fs' mm Hmm. unfold hand_over. rewrite (Hnew (XObj (FRESH + j) c' fs' mm) eq_refl).
     destruct Hmm as [-> | ->]; [|destruct m]; cbn; split; auto; lia. }
   destruct cur as [i|i l|i c fs m'].
